@@ -266,4 +266,100 @@ example : Gen.Py.server_hello_version true [3, 3] [2, 0, 0, 40, 3, 3] none true 
     Gen.Py.server_hello_version false [3, 1] [2, 0, 0, 40, 3, 9] (some .tls12) true = { tls_version := some .tls12, can_decrypt := false } := by
   decide
 
+/-! ### tlexport/main.py -/
+
+/-- how the head of `handle_quic_packet` is left, and with which `dcid` / `quic_version`, per model header -/
+def hdrRes : MainLoop.Hdr → Res Gen.Py.quic_header.St Exit
+  | .tooShort => .ok .ret { dcid := [], quic_version := .unknown }
+  | .long d v => .ok .fall { dcid := d, quic_version := v }
+  | .short => .ok .fall { dcid := [], quic_version := .unknown }
+
+theorem isLong_eq (b0 : UInt8) : Quic.Dissect.isLong b0 = decide ((b0.toNat >>> 7) &&& 1 = 1) := by
+  revert b0
+  apply forall_u8
+  decide +kernel
+
+/-- the head of `handle_quic_packet` (with the translated `get_header_type` for its `header_type`) is the model's
+    `parseHeader1`; the `packet_payload[5]` it reads never raises -/
+theorem quic_header_eq_model (b0 : UInt8) (rest : Bytes) (ht : Quic.HType)
+    (h : Gen.Py.get_header_type (b0 :: rest) = .ok ht) :
+    Gen.Py.quic_header ht (b0 :: rest) = hdrRes (MainLoop.parseHeader1 b0 rest) := by
+  rw [get_header_type_eq_model] at h
+  simp only [onFirst, Except.ok.injEq, isLong_eq] at h
+  subst h
+  unfold Gen.Py.quic_header MainLoop.parseHeader1
+  by_cases hl : (b0.toNat >>> 7) &&& 1 = 1
+  · by_cases h6 : (b0 :: rest).length < 6
+    · simp only [hl, h6, decide_true, if_true, hdrRes]
+    · have h5 : 5 < (b0 :: rest).length := by omega
+      have hn : (5 : Int) = Int.ofNat 5 := rfl
+      simp only [hl, h6, decide_true, decide_false, Bool.false_eq_true, if_true, if_false, hn, getItem_nat,
+        List.getElem?_eq_getElem h5, tryE_ok, hdrRes, MainLoop.versionOf, decide_eq_true_eq]
+      repeat' split
+      all_goals simp_all
+  · simp only [hl, decide_false, Bool.false_eq_true, if_false, reduceCtorEq, hdrRes]
+
+example : Gen.Py.quic_header .long [0xc3, 0, 0, 0, 1, 2, 0xaa, 0xbb, 0] = .ok .fall { dcid := [0xaa, 0xbb], quic_version := .v1 } ∧
+    Gen.Py.quic_header .long [0xc3, 0, 0] = .ok .ret { dcid := [], quic_version := .unknown } := by decide +kernel
+
+/-- the long-header CID test of the session loop is the condition of the model's `cidMatch` -/
+theorem quic_long_cid_test_eq_model (cc sc : List Bytes) (side : MainLoop.Side) (dcid payload : Bytes) (v : MainLoop.Version) :
+    MainLoop.cidMatch cc sc side (.long dcid v) payload =
+      if Gen.Py.quic_long_cid_test dcid cc sc then some dcid else none := by
+  simp [MainLoop.cidMatch, Gen.Py.quic_long_cid_test]
+
+example : Gen.Py.quic_long_cid_test [1] [[1]] [] = true ∧ Gen.Py.quic_long_cid_test [] [[]] [] = false := by decide
+
+/-- the candidate set of a short-header datagram is the model's `shortCandidates` at the model's `Sess.side` -/
+theorem quic_short_candidates_eq_model {α : Type} (s : MainLoop.Sess α) (p : MainLoop.Pkt) (cc sc : List Bytes) :
+    (Gen.Py.quic_short_candidates cc sc (s.matches p) p.src.ip p.src.port s.client.ip s.client.port).candidates =
+      MainLoop.shortCandidates cc sc (s.side p) := by
+  unfold Gen.Py.quic_short_candidates MainLoop.Sess.side
+  simp only [endpoint_beq]
+  repeat' split
+  all_goals simp_all [MainLoop.shortCandidates]
+
+example : (Gen.Py.quic_short_candidates [[1]] [[2]] true [10, 0, 0, 2] 5000 [10, 0, 0, 2] 5000).candidates = [[2]] ∧
+    (Gen.Py.quic_short_candidates [[1]] [[2]] false [10, 0, 0, 2] 5000 [10, 0, 0, 2] 5000).candidates = [[1], [2]] := by decide
+
+/-- the per-candidate test is the model's `cidPrefixOf` -/
+theorem quic_short_cid_test_eq_model (cid payload : Bytes) :
+    Gen.Py.quic_short_cid_test cid payload = MainLoop.cidPrefixOf payload cid := by
+  simp only [Gen.Py.quic_short_cid_test, MainLoop.cidPrefixOf, gt_iff_lt]
+  congr 1
+  rw [Bool.eq_iff_iff]
+  simp
+
+example : Gen.Py.quic_short_cid_test [7, 8] [0x43, 7, 8, 9] = true ∧ Gen.Py.quic_short_cid_test [] [0x43] = false := by decide
+
+/-- how the loop body of `run()` is left for a frame the model ignores -/
+def whyExit : MainLoop.Why → Exit
+  | .emptyTcp => .cont
+  | .emptyUdp => .cont
+  | .badCsumUdp => .cont
+  | .badCsumTcp => .fall
+  | .noFixedBit => .fall
+  | .notTcpUdp => .fall
+
+/-- the handler called and the exit taken, per model class of a frame -/
+def classRes {κ : Type} : MainLoop.Class κ → Res Gen.Py.run_classify.St Exit
+  | .tls _ => .ok .fall { acts := [.tls] }
+  | .quic _ _ _ => .ok .fall { acts := [.quic] }
+  | .ignore w => .ok (whyExit w) { acts := [] }
+  | .keys _ => .ok .cont { acts := [] }
+
+/-- the frame dispatch of `run()` is the model's `classify` (`packet.tcp_packet` / `udp_packet` are the model's `l4`;
+    both checksum functions are the model's `csumOk`); `packet.tls_data[0]` never raises -/
+theorem run_classify_eq_model {κ : Type} (o : MainLoop.Opts) (p : MainLoop.Pkt) :
+    Gen.Py.run_classify (p.l4 == .tcp) (p.l4 == .udp) p.payload o.checksumTest o.greasy p.csumOk p.csumOk =
+      classRes (MainLoop.classify (κ := κ) o (.frame p)) := by
+  unfold Gen.Py.run_classify MainLoop.classify
+  obtain ⟨l4, src, dst, payload, csumOk, tag⟩ := p
+  cases l4 <;> cases payload <;> cases hc : o.checksumTest <;> cases csumOk <;> simp [classRes, whyExit]
+  all_goals split <;> simp_all
+
+example : Gen.Py.run_classify false true [0x43, 1] true false true true = .ok .fall { acts := [.quic] } ∧
+    Gen.Py.run_classify true false [0x16] true false false false = .ok .fall { acts := [] } ∧
+    Gen.Py.run_classify false true [0x03] false false true true = .ok .fall { acts := [] } := by decide
+
 end TLX.Props.Translated
